@@ -126,6 +126,18 @@ def build(tier, seed, only=None):
         for s in F.words(rng, tier == 'thorough'):
             add(main, 'words', s)
 
+    if want('file'):
+        # the command-line path: a real file read by SourceCode.from_file.  Exotic separators (form feed, vertical
+        # tab, U+2028/2029, NEL, FS..RS) are ordinary characters there; CRLF / CR are line ends.
+        seps = ['\x0c', '\x0b', '\u2028', '\u2029', '\x85', '\x1c', '\x1e', '\r\n', '\r', '\n']
+        pieces = []
+        for sp in seps:
+            pieces += ['x = "a%sb";\ny' % sp, "c = '%s';\nz" % sp, 'p // q%sr\ns' % sp, 'a%sb' % sp if sp in ('\x0c', '\x0b', '\r\n', '\r', '\n') else 'a //%s\nb' % sp,
+                       '"u%s' % sp, 'k\n%s\nm' % sp, 'e%s' % sp]
+        for src in pieces + [p + '\n' for p in pieces[:20]]:
+            counts['file'] = counts.get('file', 0) + 1
+            main.add('file', R.file_lines_text(src), R.record_file(src))
+
     digests = []
     if want('layout'):
         groups = []
